@@ -480,10 +480,33 @@ def http_continue_classes():
     return c
 
 
+def ftp_warc_classes():
+    """The FTP fetch with --warc-file: the recorder's FTP session sees every step of the conversation, also the ones
+    that never happen (a connection that is refused has no control conversation to record)."""
+    c = {}
+    c['fw_ok'] = dict()
+    c['fw_connect_refused'] = dict(fault=dict(site='f_connect', kind='OSConnRefused'), run_as='ftproot')
+    c['fw_connect_timeout'] = dict(fault=dict(site='f_connect', kind='TimeoutError'), run_as='ftproot')
+    c['fw_retr_550'] = _f('RETR', ('reply', b'550 no such file\r\n'))
+    c['fw_data_reset'] = _f('data', ('datafail', 'OSError'))
+    c['fw_greeting_421'] = dict(hostile=dict(at='greet', do=('reply', b'421 too many users\r\n'), when='always'), run_as='ftproot')
+    return c
+
+
+def http_warc_classes():
+    c = {}
+    c['hw_ok'] = _p(resp())
+    c['hw_connect_refused'] = dict(_p(resp()), fault=dict(site='h_connect', kind='OSConnRefused'))
+    c['hw_reset_in_header'] = _p(b'HTTP/1.1 200 OK\r\nContent-Ty', close=False, fail='OSError')
+    c['hw_garbage'] = _p(b'\x00\x01 this is not http\r\n\r\n')
+    return c
+
+
 def check_names(tla_wire_names, tla_tokens=None):
     """Both sides must list the same class names."""
     mine = set(page_classes()) | set(robots_classes()) | set(ftp_classes()) | set(ftp_listing_classes()) | set(ftp_parent_classes())
     mine |= set(ftp_perm_classes()) | set(ftp_symlink_classes()) | set(ftp_continue_classes()) | set(http_continue_classes())
+    mine |= set(ftp_warc_classes()) | set(http_warc_classes())
     theirs = set(tla_wire_names)
     if mine != theirs:
         raise AssertionError('wire classes differ: only in python %s; only in TLA+ %s'
